@@ -197,7 +197,30 @@ func ApplyPlant(rt *rapid.T, c *Case) *Plant {
 			return nil
 		}
 		x := types[rapid.IntRange(0, len(types)-1).Draw(rt, "plant-x")]
-		via := rapid.SampledFrom([]string{"prov", "value", "field", "bind"}).Draw(rt, "plant-via")
+		via := rapid.SampledFrom([]string{"prov", "value", "field", "bind", "twin-fields"}).Draw(rt, "plant-via")
+		if via == "twin-fields" {
+			// a struct expansion whose struct has two exported fields of the same type: the
+			// two field reads supply the same type (needs a struct producer in the cone)
+			for _, u := range r.Needed {
+				if u.Kind != "field" {
+					continue
+				}
+				st := c.StructOf(u.Type)
+				if st == nil || st.Pkg != "" {
+					continue
+				}
+				idx := int(st.ID)
+				c.Types[idx].Fields = append(c.Types[idx].Fields, Field{Name: "FZ", Type: u.Field.Type})
+				pl.Via = "twin-fields"
+				pl.Types = []TypeID{u.Field.Type}
+				pl.Position = "deep"
+				if r2 := c.Resolve(inj); len(r2.Dups) == 0 {
+					return nil
+				}
+				return pl
+			}
+			via = "prov"
+		}
 		if via == "bind" && c.T(x).Kind != KIface {
 			via = "prov"
 		}
